@@ -1,24 +1,31 @@
 """
 C12 — results do not depend on how the OS splits reads and writes.
 
-Proof: lean/Sqfs/Props/C12.lean over the model lean/Sqfs/Model/IoLoops.lean (retry loops of file.c / ostream.c /
-unix.c, the buffered file istream, sqfs_istream_read/skip/splice, istream_get_line, record_to_memory), for every
-OS script of short counts / EINTR / hard errors.
+Proof: lean/Sqfs/Props/C12.lean over the models lean/Sqfs/Model/{IoLoops,XfrmStream,C12TarStream}.lean (retry loops of
+file.c / ostream.c / unix.c, the buffered file istream, sqfs_istream_read/skip/splice, istream_get_line,
+record_to_memory, the transforming streams of lib/xfrm, the member stream of the tar iterator and the head of it_next),
+for every OS script of short counts / EINTR / hard errors.
 
 Tie (a), in process: harness/h_c12.c links the real sources of the working tree; read/write/pread/pwrite/lseek/
 ftruncate/fsync are redirected at link time (--wrap) to functions that answer from the scenario's OS script and
 serve the data from memory.  The same scenario lines go to `sqfsmodel c12`; outputs (status, bytes, private
-stream state, number of script events consumed, the call-by-call trace) are diffed.  The istream buffer size is
-read from the code (`bufsz` op); additional builds of the *same* istream.c with only the BUFSZ constant changed
-(1, 7, 64) make every buffer boundary reachable with byte-sized chunks.
+stream state, number of script events consumed, the call-by-call trace) are diffed as strings.  The buffer sizes are
+read from the code (`bufsz`/`xbufsz` ops); additional builds of the *same* istream.c / xfrm istream.c / xfrm ostream.c
+with only the BUFSZ constants changed (1, 7, 64) make every buffer boundary reachable with byte-sized chunks — the
+check fails (CheckFailure) when such a build cannot be made or does not have the wanted sizes.  The harness processes
+hand the streams descriptors of different kinds (FDTYPES), since no data flows through them anyway.
 The property itself is evaluated on the implementation: the run under a script of short counts/EINTRs must
-equal the implementation's own run under the empty script, and must equal the ideal-stream specification
-(`sqfsmodel c12 spec`); under hard errors "status 0 ⇒ complete transfer" is checked by an independent monitor.
+equal the implementation's own run under the empty script, the ideal-stream specification (`sqfsmodel c12 spec`)
+and, for line readers, the byte-at-a-time scanner (`lines`); under hard errors "status 0 ⇒ complete transfer" is
+checked by independent monitors; for tar members an independent monitor recomputes the expanded member content.
 
 Tie (b), tool level: harness/shim_io.c (LD_PRELOAD: seeded short counts and EINTR on read/write/pread/pwrite)
-on un-sanitized builds of gensquashfs, tar2sqfs, sqfs2tar, rdsquashfs plus a pipe feeder that delivers stdin in
+on un-sanitized builds of gensquashfs, tar2sqfs, sqfs2tar, rdsquashfs plus a pipe/socket feeder that delivers stdin in
 chunks down to one byte and drains stdout slowly; sha256 of the image / archive / unpacked tree and the exit
 status must equal the unperturbed run's.
+
+Every part has a floor: a part that evaluated nothing (or too little) raises CheckFailure, which tools/check reports as
+a violation — never a pass.
 """
 import hashlib, io, json, os, re, subprocess, tarfile, threading, time
 import vlib
@@ -56,7 +63,7 @@ def _const(name, default):
 
 
 ERR_COMPRESSOR = _const("errCompressor", 3)   # to recognise codec errors of the toy codec in a monitor
-STREAMK = ("istream", "xistream", "xostream", "tarstrm")
+STREAMK = ("istream", "xistream", "xostream", "tarstrm", "xtarstrm")
 HARNESS_TIMEOUT = 600     # seconds per harness process; an idle machine needs < 5 s (quick) / < 60 s (thorough)
 
 
@@ -291,8 +298,9 @@ def expand_member(record, filesize, sparse):
     return bytes(out)
 
 
-def gen_tarstrm(rng, B, big):
-    """one archive member (plain or old-GNU sparse) read through the real tar iterator's member stream"""
+def gen_tarstrm(rng, B, big, BX=None):
+    """one archive member (plain or old-GNU sparse) read through the real tar iterator's member stream; with BX the
+    archive stream is the transforming istream (pass-through codec) on top of the file istream"""
     sparse = []
     if rng.random() < 0.6:
         # sorted, non-overlapping data regions; holes around the 4096-byte zero window of the member stream
@@ -338,6 +346,11 @@ def gen_tarstrm(rng, B, big):
     sc = gen_script(rng, 40 if not big else 100, max(B, 8) if not big else B, hard)
     sp = ",".join("%d:%d" % x for x in sparse) if sparse else "-"
     o = ",".join(ops)
+    if BX is not None:
+        return {"kind": "xtarstrm", "B": B, "script": sc,
+                "line": "xtarstrm %d %d %s %s %d %d %s %s %s" % (B, BX, fl, d, recsize, filesize, sp, o, script_tok(sc)),
+                "full": "xtarstrm %d %d %s %s %d %d %s %s -" % (B, BX, fl, d, recsize, filesize, sp, o),
+                "args": (d, recsize, filesize, sparse, ops)}
     return {"kind": "tarstrm", "B": B, "script": sc,
             "line": "tarstrm %d %s %s %d %d %s %s %s" % (B, fl, d, recsize, filesize, sp, o, script_tok(sc)),
             "full": "tarstrm %d %s %s %d %d %s %s -" % (B, fl, d, recsize, filesize, sp, o),
@@ -419,7 +432,7 @@ def observable(kind, out):
     """what a caller can see: everything except the number of script events left, the syscall trace and (for the
     istream) the private buffer indices"""
     o = TAIL.sub("", out)
-    if kind in ("istream", "xistream", "tarstrm"):
+    if kind in ("istream", "xistream", "tarstrm", "xtarstrm"):
         o = re.sub(r"x?st=\S+ ", "", o)
         o = re.sub(r" size=\d+ sparse=\d+ pos=\d+", "", o)
     if kind in ("ostream", "xostream"):
@@ -455,7 +468,7 @@ def never_short(sc):
             bad.append("write_at failed without a hard error")
     elif sc["kind"] == "ostream" and sc["args"][0] in "SN":
         pass          # continue-after-failure client: correspondence only (no tool calls a stream again after a failure)
-    elif sc["kind"] == "tarstrm":
+    elif sc["kind"] in ("tarstrm", "xtarstrm"):
         bad += tar_monitor(sc, out)
     elif sc["kind"] == "ostream":
         fl, ops = sc["args"]
@@ -611,11 +624,12 @@ def run_parallel(ctx, h, lines, jobs, fdrot=0):
     out = [None] * len(lines)
     for i in range(jobs):
         o, crash = res[i]
+        fd = FDTYPES[(i + fdrot) % len(FDTYPES)]
         if crash:
             k = crash[1]
-            return None, (crash[0], chunks[i][min(k, len(chunks[i]) - 1)], crash[2])
+            return None, (crash[0] + " fd=" + fd, chunks[i][min(k, len(chunks[i]) - 1)], crash[2])
         for j, l in enumerate(o):
-            out[i + j * jobs] = l
+            out[i + j * jobs] = (l, fd)
     return out, None
 
 
@@ -647,7 +661,7 @@ def run_model(ctx, lines, jobs):
 
 
 # ------------------------------------------------------------------------------------------------ in-process part
-OPS_FIELD = {"ostream": 2, "istream": 4, "xistream": 5, "xostream": 3, "tarstrm": 7}
+OPS_FIELD = {"ostream": 2, "istream": 4, "xistream": 5, "xostream": 3, "tarstrm": 7, "xtarstrm": 8}
 
 
 def parse_line(l, B, small, bx):
@@ -659,7 +673,7 @@ def parse_line(l, B, small, bx):
     kind = w[0]
     script = [] if w[-1] == "-" else w[-1].split(",")
     try:
-        b = int(w[1]) if kind in ("istream", "xistream", "tarstrm") else 0
+        b = int(w[1]) if kind in ("istream", "xistream", "tarstrm", "xtarstrm") else 0
         sc = {"kind": kind, "B": b, "script": script, "line": l, "full": " ".join(w[:-1] + ["-"]), "args": None}
         if kind == "readat":
             sc["args"] = (w[1], int(w[2]), int(w[3]))
@@ -680,6 +694,11 @@ def parse_line(l, B, small, bx):
             sc["spec"] = "tarspec %s %s %s %s %s %s" % (w[1], w[3], w[4], w[5], w[6], w[7])
             sparse = [] if w[6] == "-" else [tuple(int(v) for v in e.split(":")) for e in w[6].split(",")]
             sc["args"] = (w[3], int(w[4]), int(w[5]), sparse, [] if w[7] == "-" else w[7].split(","))
+        elif kind == "xtarstrm":
+            if b not in bx or bx[b][0] != int(w[2]):
+                return None
+            sparse = [] if w[7] == "-" else [tuple(int(v) for v in e.split(":")) for e in w[7].split(",")]
+            sc["args"] = (w[4], int(w[5]), int(w[6]), sparse, [] if w[8] == "-" else w[8].split(","))
         elif kind == "xistream":
             sc["spec"] = "xspec %s %s %s %s" % (w[1], w[2], w[4], w[5])
             if b not in bx or bx[b][0] != int(w[2]):
@@ -724,14 +743,14 @@ def judge(sc):
     return failures, (not failures and sc["impl"] != sc["model"])
 
 
-def evaluate(ctx, hs, B, scs):
+def evaluate(ctx, hs, B, scs, fd="n"):
     """fill impl / implfull / model / specout for a few scenarios (sequentially); returns False on a crash"""
     groups = {}
     for sc in scs:
         groups.setdefault(sc["B"] if sc["kind"] in STREAMK else B, []).append(sc)
     for key, g in groups.items():
         lines = [sc["line"] for sc in g] + [sc["full"] for sc in g if not is_hard(sc["script"])]
-        out, crash = run_harness(ctx, hs[key], lines)
+        out, crash = run_harness(ctx, hs[key], lines, fd)
         if crash:
             return False
         it = iter(out[len(g):])           # run_harness has checked len(out) == len(lines)
@@ -769,7 +788,7 @@ def shrink(ctx, hs, B, small, bx, sc, rounds=8):
                 cands.append(" ".join(w[:f] + [",".join(t) if t else "-"] + w[f + 1:]))
         cands = cands[:120]
         scs = [x for x in (parse_line(c, B, small, bx) for c in cands) if x is not None]
-        if not scs or not evaluate(ctx, hs, B, scs):
+        if not scs or not evaluate(ctx, hs, B, scs, sc.get("fd") or "n"):
             break
         nxt = None
         for x in scs:
@@ -793,14 +812,14 @@ def classify(ctx, sc, stats, env=None):
     stats[which] += 1
     if stats[which] > 5:
         return True
-    orig = sc["line"]
+    orig, orig_fd = sc["line"], sc.get("fd") or "n"
     try:
         sc = shrink(ctx, *env, sc) if env else sc
         failures, corr = judge(sc)
     except Exception as e:                       # shrinking is best effort
         ctx.log("shrink failed:", e)
     rp = {"line": sc["line"], "full": sc["full"], "spec": sc.get("spec"), "B": sc["B"], "impl": sc["impl"],
-          "implfull": sc.get("implfull"), "model": sc["model"], "original_line": orig}
+          "implfull": sc.get("implfull"), "model": sc["model"], "original_line": orig, "fd": orig_fd}
     if failures:
         rp["failures"] = failures
         ctx.violation("split:%s:%s" % (kind, vlib.sha(sc["line"])[:12]),
@@ -847,6 +866,9 @@ def inprocess(ctx, hs, B, small, bx):
         scen.append(gen_xostream(rng, b, bx[b][1], False))
         if k % 2 == 0:
             scen.append(gen_tarstrm(rng, rng.choice(small + [B]), False))
+        if k % 8 == 1:
+            b = rng.choice(small + [B])
+            scen.append(gen_tarstrm(rng, b, False, bx[b][0]))
     for k in range(n_big):
         if k % 2 == 0:
             scen.append(gen_xistream(rng, B, bx[B][0], True))
@@ -873,15 +895,15 @@ def inprocess(ctx, hs, B, small, bx):
         if crash:
             what, line, err = crash
             ctx.violation("crash:%s" % vlib.sha(line)[:12], "real code aborted (%s) on scenario: %s :: %s" % (what, line[:300], err[-600:]),
-                          {"line": line, "B": key, "stderr": err})
+                          {"line": line, "B": key, "stderr": err, "fd": what.rsplit("fd=", 1)[-1] if "fd=" in what else "n"})
             crashed = True
             continue
         if len(out) != len(lines) + len(fulls) or any(o is None for o in out):
             raise vlib.CheckFailure("harness B=%s answered %d of %d lines" % (key, len([o for o in out if o is not None]), len(lines) + len(fulls)))
         it = iter(out[len(lines):])
-        for sc, o in zip(g, out):
-            sc["impl"] = o
-            sc["implfull"] = next(it) if not is_hard(sc["script"]) else None
+        for sc, (o, fd) in zip(g, out):
+            sc["impl"], sc["fd"] = o, fd          # fd: the kind of descriptor the streams of this scenario were given
+            sc["implfull"], sc["fdfull"] = next(it) if not is_hard(sc["script"]) else (None, None)
     if crashed:
         return scen, stats, ncorpus, nfixed
     extra = [(sc, k) for k in ("spec", "lines") for sc in scen if sc.get(k) and not is_hard(sc["script"])]
@@ -947,8 +969,9 @@ def run(ctx):
                 len(done), len(nontrivial), consumed, evhist, longest, nfull, nspec, nlines, t_in))
     if not any(v["key"].startswith("crash:") for v in ctx.violations):
         # floors: a part of the check that evaluated nothing is a failure of the check, not a pass
-        need = ["readat", "writeat", "ostream", "istream:B=%d" % B, "xistream:B=%d" % B, "xostream:B=%d" % B, "tarstrm:B=%d" % B]
-        need += ["istream:B=%d" % b for b in small] + ["tarstrm:B=%d" % b for b in small]
+        need = ["readat", "writeat", "ostream", "istream:B=%d" % B, "xistream:B=%d" % B, "xostream:B=%d" % B, "tarstrm:B=%d" % B,
+                "xtarstrm:B=%d" % B]
+        need += ["istream:B=%d" % b for b in small] + ["tarstrm:B=%d" % b for b in small] + ["xtarstrm:B=%d" % b for b in small]
         lack = [k for k in need if kinds.get(k, 0) < (10 if ctx.quick() else 100)]
         lack += ["xistream (small buffers)"] if sum(kinds.get("xistream:B=%d" % b, 0) for b in small) < 200 else []
         lack += ["xostream (small buffers)"] if sum(kinds.get("xostream:B=%d" % b, 0) for b in small) < 200 else []
@@ -1044,7 +1067,7 @@ def replay(ctx, path):
     if key not in hs:
         key = B
     lines = [rp["line"]] + ([rp["full"]] if rp.get("full") else [])
-    out, crash = run_harness(ctx, hs[key], lines)
+    out, crash = run_harness(ctx, hs[key], lines, rp.get("fd") or "n")
     model = ctx.driver(["c12"], "\n".join(lines + ([rp["spec"]] if rp.get("spec") else [])) + "\n")
     print("scenario:", rp["line"][:1000])
     print("impl    :", out, "crash:", crash)
